@@ -293,6 +293,12 @@ class Session:
             if x in self.seen:
                 self.fail("no_duplicate_abscissa", f"ask returned {x!r} a second time")
             self.seen.add(x)
+            if not hasattr(self, "_first_rule_buf"):
+                self._first_rule_buf = []
+            if len(self._first_rule_buf) < 33:
+                self._first_rule_buf.append(x)
+                if len(self._first_rule_buf) == 33:
+                    self.first_rule = list(self._first_rule_buf)
         ai = l.first_ival.done_leaves
         if ai is None:
             self.fail("estimate_defined", "first_ival.done_leaves is None")
@@ -315,6 +321,13 @@ class Session:
         else:
             if self.ever_estimate:
                 self.fail("partition_persists", "the set of approximating intervals became empty again")
+            # "from the moment the first rule is complete": the first ask hands out the 33 abscissae of the whole range's
+            # first rule before anything else; once all of them have values there must be an estimate
+            first = getattr(self, "first_rule", None)
+            if first is None and self.seen:
+                pass
+            if first and all(x in l.data for x in first):
+                self.fail("partition_from_first_rule", "all 33 abscissae of the first rule have values but there is no approximating interval")
             if l.igral != 0 or l.err != math.inf:
                 self.fail("igral_is_sum", f"no approximating interval but igral={l.igral!r} err={l.err!r}")
 
